@@ -33,6 +33,8 @@ void vrt_fail(const char *fmt, ...) __attribute__((format(printf, 1, 2), noretur
 /* harness bug (not a property violation): ends the whole check with exit 2 */
 void vrt_internal(const char *fmt, ...) __attribute__((format(printf, 1, 2), noreturn));
 
+/* describe what this execution did (call/return history, values read); shown in the evidence samples */
+void vrt_sample(const char *fmt, ...) __attribute__((format(printf, 1, 2)));
 /* mix an observed value into this execution's outcome signature */
 void vrt_outcome(unsigned long v);
 /* count that a named mechanism was reached in this execution (id < 32) */
